@@ -448,4 +448,111 @@ theorem dimOfName_name {d : Pows} (hd : Canon d) (hv : ∀ e ∈ d, ValidBase e.
   rw [pyDict_of_nodup _ hnd]
   exact fromPowers_perm hperm hd
 
+/-! ## `Dimension.create` admits valid base symbols only -/
+
+theorem splitOn_piece (c : Char) (l : List Char) : ∀ p ∈ splitOn c l, c ∉ p ∧ p.length ≤ l.length ∧ ∀ x ∈ p, x ∈ l := by
+  induction l with
+  | nil => intro p hp; simp [splitOn] at hp; subst hp; simp
+  | cons x t ih =>
+    intro p hp
+    simp only [splitOn] at hp
+    split at hp
+    · rename_i hx
+      rcases List.mem_cons.mp hp with rfl | hp
+      · simp
+      · obtain ⟨h1, h2, h3⟩ := ih p hp
+        exact ⟨h1, by simp; omega, fun y hy => List.mem_cons_of_mem _ (h3 y hy)⟩
+    · rename_i hx
+      split at hp
+      · rename_i h0; exact absurd h0 (splitOn_ne_nil c t)
+      · rename_i h r hs
+        rcases List.mem_cons.mp hp with rfl | hp
+        · obtain ⟨h1, h2, h3⟩ := ih h (by rw [hs]; exact List.mem_cons_self ..)
+          refine ⟨?_, by simp; omega, ?_⟩
+          · intro hm; rcases List.mem_cons.mp hm with e | e
+            · exact hx e.symm
+            · exact h1 e
+          · intro y hy; rcases List.mem_cons.mp hy with e | e
+            · rw [e]; exact List.mem_cons_self ..
+            · exact List.mem_cons_of_mem _ (h3 y e)
+        · obtain ⟨h1, h2, h3⟩ := ih p (by rw [hs]; exact List.mem_cons_of_mem _ hp)
+          exact ⟨h1, by simp; omega, fun y hy => List.mem_cons_of_mem _ (h3 y hy)⟩
+
+theorem rawFactors_mem (s : List Char) : ∀ fb ∈ rawFactors s, fb.1 ≠ [] ∧ '*' ∉ fb.1 ∧ '/' ∉ fb.1 ∧ fb.1.length ≤ s.length := by
+  intro fb hfb
+  rw [rawFactors_eq, List.mem_flatMap] at hfb
+  obtain ⟨part, hpart, hf⟩ := hfb
+  unfold partFactors at hf
+  obtain ⟨fi, hfi, rfl⟩ := List.mem_map.mp hf
+  rw [List.mem_filter] at hfi
+  obtain ⟨hz, hne⟩ := hfi
+  have hpiece : fi.1 ∈ splitOn '/' part := by
+    have := List.mem_zipIdx hz  -- fi = (l[i], i)
+    obtain ⟨_, _, h⟩ := this
+    simp at h
+    rw [h]; exact List.getElem_mem _
+  obtain ⟨p1, p2, p3⟩ := splitOn_piece '/' part fi.1 hpiece
+  obtain ⟨q1, q2, q3⟩ := splitOn_piece '*' s part hpart
+  refine ⟨by simpa using hne, ?_, p1, by show fi.1.length ≤ s.length; omega⟩
+  intro hm; exact q1 (p3 _ hm)
+
+theorem rstripPow_props (f : List Char) :
+    (rstripPow f).length ≤ f.length ∧ ((rstripPow f).length = f.length → rstripPow f = f ∧ ∀ c, f.getLast? = some c → isPowChar c = false) := by
+  unfold rstripPow
+  have hsuf : (f.reverse.dropWhile isPowChar) <:+ f.reverse := List.dropWhile_suffix _
+  obtain ⟨t, ht⟩ := hsuf
+  have hlen : t.length + (f.reverse.dropWhile isPowChar).length = f.length := by
+    have := congrArg List.length ht; simpa using this
+  refine ⟨by simp; omega, ?_⟩
+  intro heq
+  have ht0 : t = [] := by
+    have : t.length = 0 := by simp at heq; omega
+    exact List.length_eq_zero_iff.mp this
+  subst ht0
+  simp only [List.nil_append] at ht
+  refine ⟨by rw [ht, List.reverse_reverse], ?_⟩
+  intro c hc
+  have hhead : f.reverse.head? = some c := by rw [List.head?_reverse]; exact hc
+  cases hr : f.reverse with
+  | nil => rw [hr] at hhead; cases hhead
+  | cons y r =>
+    rw [hr] at hhead ht; simp at hhead; subst hhead
+    rw [List.dropWhile_cons] at ht
+    split at ht
+    · have : (r.dropWhile isPowChar).length ≤ r.length := (List.dropWhile_suffix _).length_le
+      have h2 := congrArg List.length ht
+      simp at h2; omega
+    · rename_i hp; simpa using hp
+
+theorem decodeFactor_base {f : List Char} {bp : List Char × Rat} (h : decodeFactor f = .ok bp) : bp.1 = rstripPow f := by
+  unfold decodeFactor at h
+  simp only at h
+  split at h
+  · split at h
+    · cases h
+    · simp only [Except.ok.injEq] at h; rw [← h]
+  · cases h
+
+theorem create_valid_aux (s : List Char) (h : createCheck s = .ok) : ValidBase (String.ofList s) := by
+  unfold createCheck at h
+  split at h
+  · cases h
+  · rename_i fb rest hraw
+    split at h
+    · cases h
+    · rename_i bp hdec
+      split at h
+      · rename_i hbs
+        have hmem := rawFactors_mem s fb (by rw [hraw]; exact List.mem_cons_self ..)
+        obtain ⟨hne, hst, hsl, hlen⟩ := hmem
+        have hb := decodeFactor_base hdec
+        obtain ⟨r1, r2⟩ := rstripPow_props fb.1
+        have hle : (rstripPow fb.1).length = fb.1.length := by
+          have : (rstripPow fb.1).length = s.length := by rw [← hb, hbs]
+          omega
+        obtain ⟨e1, e2⟩ := r2 hle
+        have hfs : fb.1 = s := by rw [← e1, ← hb, hbs]
+        rw [hfs] at hne hst hsl e2
+        refine ⟨by simpa using hne, by simpa using hst, by simpa using hsl, by simpa using e2⟩
+      · cases h
 end NutilsVerif.C20
